@@ -106,6 +106,8 @@ def setup(threads=1, inject_ext=True):
     import warnings
 
     warnings.filterwarnings("ignore", message=".*sparse_csr.*")
+    warnings.filterwarnings("ignore", category=UserWarning, module=r"torch\..*")
+    warnings.filterwarnings("ignore", message=".*int_mm_out_cpu failed.*")
     # quanto_ext has no kernel for the meta device: the library warns and falls back (expected, noisy)
     warnings.filterwarnings("ignore", message=".*No optimized kernel found for quanto::unpack.*")
     import optimum.quanto as oq
